@@ -17,9 +17,10 @@ import (
 	"testing"
 )
 
-// behaviours: a string of steps. N = call Next(), W = write a status, C = cancel the request (last step only),
-// a trailing R = return a non-empty string (rendered by the return handler, i.e. a write after the body).
-var c03Behaviours = []string{"", "N", "W", "NW", "WN", "NN", "R", "NR", "C"}
+// behaviours: a string of steps. N = call Next(), W = write a status, C = cancel the request's current context,
+// D = replace the request by one with a derived (cancellable) context, a trailing R = return a non-empty string
+// (rendered by the return handler, i.e. a write after the body).
+var c03Behaviours = []string{"", "N", "W", "NW", "WN", "NN", "R", "D", "C"}
 
 type c03Input struct{ Chain []string }
 
@@ -43,6 +44,7 @@ func c03Reference(chain []string) []string {
 					written = true
 				case 'C':
 					cancelled = true
+				case 'D': // a derived context is cancelled together with, but not before, its parent
 				}
 			}
 			trace = append(trace, fmt.Sprintf("<%d", i))
@@ -69,6 +71,10 @@ func c03Run(chain []string) (trace []string, panicked string) {
 					c.ResponseWriter().WriteHeader(http.StatusAccepted)
 				case 'C':
 					cancel()
+				case 'D':
+					ctx2, cf2 := gocontext.WithCancel(c.Request().Context())
+					cancel = cf2 // "the request's current context" is now the derived one
+					c.Request().Request = c.Request().WithContext(ctx2)
 				}
 			}
 		}
